@@ -1,7 +1,7 @@
 (* Proofs/SerdeProofs.v -- C16: typed data round-trips through to_value / from_value.
    The float formatting / parsing dependencies are section variables constrained by the
    stated hypotheses; after the section closes they are explicit premises of the theorem. *)
-From JsonSyntax Require Import Base.Prelude Base.Value Spec.EcmaNumber Spec.Multimap
+From JsonSyntax Require Import Base.Prelude Base.Value Base.Float64 Spec.EcmaNumber Spec.NumSpelling Spec.Multimap
   Spec.SerdeTyped Model.Serde Proofs.SerdeBasics.
 Local Open Scope Z_scope.
 
@@ -23,18 +23,17 @@ Qed.
 Section RoundTrip.
   Variable E : env.
   Variable fmt_f64 fmt_f32 : Z -> list N.
-  Variable lossy : list N -> Z.
 
   (* reading the spelling of a finite float back along the deserializer's number path
-     (integer spelling -> `as` cast, otherwise the lossy parser, then `as f32` for f32)
+     (integer spelling -> `as` cast, otherwise the correctly rounded f64 / f32 of the spelling)
      returns the float, with -0.0 turned into +0.0 *)
   Hypothesis H64 : forall b, f64_wf b = true -> f64_finite b = true ->
-    de_f64 (num_event lossy (fmt_f64 b)) = f64_norm b.
-  Hypothesis H32 : forall b, f32_wf b = true -> f32_finite b = true -> f32_dr b = false ->
-    de_f32 (num_event lossy (fmt_f32 b)) = f32_norm b.
+    de_f64 (num_event (fmt_f64 b)) = f64_norm b.
+  Hypothesis H32 : forall b, f32_wf b = true -> f32_finite b = true ->
+    de_f32 (fmt_f32 b) = f32_norm b.
 
   Notation tser := (Serde.tser fmt_f64 fmt_f32).
-  Notation de := (Serde.de E lossy).
+  Notation de := (Serde.de E).
 
   (* ---- what serialises to null ---- *)
   Lemma ser_null : forall d, tser d = Ok VNull -> null_like d = true.
@@ -206,10 +205,10 @@ Section RoundTrip.
     - (* bool *) exists (VBool b). split; [reflexivity|]. fuel1 O. reflexivity.
     - (* int *) split_and Ht. apply ikind_eqb_eq in Ht. subst k0.
       exists (VNum (z_dec z)). split; [reflexivity|]. fuel1 O.
-      rewrite (de_int_roundtrip lossy k z Ht0). reflexivity.
+      rewrite (de_int_roundtrip k z Ht0). reflexivity.
     - (* f32 *) cbn [finite_floats known_class] in Hf, Hk. exists (VNum (fmt_f32 b)). split.
       + cbn [Serde.tser]. rewrite Hf. reflexivity.
-      + fuel1 O. rewrite (H32 b Ht Hf Hk). reflexivity.
+      + fuel1 O. rewrite (H32 b Ht Hf). reflexivity.
     - (* f64 *) cbn [finite_floats] in Hf. exists (VNum (fmt_f64 b)). split.
       + cbn [Serde.tser]. rewrite Hf. reflexivity.
       + fuel1 O. rewrite (H64 b Ht Hf). reflexivity.
@@ -291,13 +290,10 @@ Section RoundTrip.
       destruct (assoc n E) as [[]|] eqn:Ea; try discriminate.
       destruct (assoc v vs) as [[]|] eqn:Ev; try discriminate.
       cbn [finite_floats known_class] in Hf, Hk.
-      destruct l as [|x l]; [discriminate|].
-      destruct (tuple_rt (x :: l) H l0 Ht0 Hf Hk) as (ws & Hws & m & Hn).
+      destruct (tuple_rt l H l0 Ht0 Hf Hk) as (ws & Hws & m & Hn).
       exists (VObj [(v, VArr ws)]). split.
       + cbn [Serde.tser]. rewrite Hws. reflexivity.
-      + fuel1 m. rewrite Ea. cbn [fst snd]. rewrite Ev.
-        pose proof (omap_length _ _ _ Hws) as Hlen.
-        destruct ws as [|w ws]; [discriminate|]. rewrite Hn by lia. reflexivity.
+      + fuel1 m. rewrite Ea. cbn [fst snd]. rewrite Ev. rewrite Hn by lia. reflexivity.
     - (* struct variant *) split_and Ht. apply str_eqb_spec in Ht. subst name.
       destruct (assoc n E) as [[]|] eqn:Ea; try discriminate.
       destruct (assoc v vs) as [[]|] eqn:Ev; try discriminate. split_and Ht0.
@@ -322,43 +318,38 @@ Lemma nonfinite_null fmt_f64 fmt_f32 :
   (forall b, f32_finite b = false -> tser fmt_f64 fmt_f32 (SdF32 b) = Ok VNull).
 Proof. split; intros b H; cbn [tser]; rewrite H; reflexivity. Qed.
 
-(* ---- the two known classes: well-typed data on which the round trip fails ---- *)
+(* ---- the known class: well-typed data on which the round trip fails ---- *)
 Definition k1_witness : tsd := SdMap [(SdStr num_token, SdStr (s2l "12"))].
-Definition k2_env : env := [(s2l "E", DefEnum [(s2l "A", VUnit); (s2l "Z", VTuple [])])].
-Definition k2_witness : tsd := SdTupleVariant (s2l "E") (s2l "Z") [].
 
 Lemma k1_refuted :
   has_type [] k1_witness (TyMap KStr TyStr) = true /\ finite_floats k1_witness = true /\
   known_class k1_witness = true /\
   to_value_ref k1_witness = Ok (VNum (s2l "12")) /\
-  forall lossy fuel, de [] lossy (S fuel) (TyMap KStr TyStr) (VNum (s2l "12")) = Err tt.
+  forall fuel, de [] (S fuel) (TyMap KStr TyStr) (VNum (s2l "12")) = Err tt.
 Proof. repeat split; vm_compute; reflexivity. Qed.
 
-Lemma k2_refuted :
-  has_type k2_env k2_witness (TyNamed (s2l "E")) = true /\ finite_floats k2_witness = true /\
-  known_class k2_witness = true /\
-  to_value_ref k2_witness = Ok (VObj [(s2l "Z", VArr [])]) /\
-  forall lossy fuel, de k2_env lossy (S fuel) (TyNamed (s2l "E")) (VObj [(s2l "Z", VArr [])]) = Err tt.
+(* ---- two former findings, now inside the theorem's domain (repaired in the code) ---- *)
+(* a tuple variant without fields *)
+Definition tv0_env : env := [(s2l "E", DefEnum [(s2l "A", VUnit); (s2l "Z", VTuple [])])].
+Definition tv0 : tsd := SdTupleVariant (s2l "E") (s2l "Z") [].
+Lemma empty_tuple_variant_example :
+  has_type tv0_env tv0 (TyNamed (s2l "E")) = true /\ known_class tv0 = false /\
+  to_value_ref tv0 = Ok (VObj [(s2l "Z", VArr [])]) /\
+  from_value_ref tv0_env 3 (TyNamed (s2l "E")) (VObj [(s2l "Z", VArr [])]) = Ok tv0.
 Proof. repeat split; vm_compute; reflexivity. Qed.
 
-(* K3: the spelling lexical produces for f32 0x15ae43fd (observed; re-observed by every
-   correspondence run through the recorded float table) reads back as 0x15ae43fe *)
-Definition k3_spelling : list N := s2l "7.038531e-26".
-Lemma k3_refuted :
-  has_type [] (SdF32 0x15ae43fd) TyF32 = true /\ finite_floats (SdF32 0x15ae43fd) = true /\
-  known_class (SdF32 0x15ae43fd) = true /\
-  lossy_ref k3_spelling = 0x3ab5c87fb0000000 /\
-  de_f32 (num_event lossy_ref k3_spelling) = 0x15ae43fe /\
-  forall fmt_f64 fmt_f32, fmt_f32 0x15ae43fd = k3_spelling ->
-    tser fmt_f64 fmt_f32 (SdF32 0x15ae43fd) = Ok (VNum k3_spelling) /\
-    forall fuel, de [] lossy_ref (S fuel) TyF32 (VNum k3_spelling) = Ok (SdF32 0x15ae43fe).
-Proof.
-  split; [reflexivity|]. split; [reflexivity|]. split; [reflexivity|].
-  split; [vm_compute; reflexivity|]. split; [vm_compute; reflexivity|].
-  intros fmt_f64 fmt_f32 Hsp. split.
-  - cbn [tser]. rewrite Hsp. reflexivity.
-  - intros fuel. vm_compute. reflexivity.
-Qed.
+(* the binary32 magnitude 7.038531e-26 = 0x15ae43fd: its shortest spelling read as a double
+   (0x3ab5c87fb0000000) is an exact binary32 midpoint, so `as f32` of that double gives
+   0x15ae43fe; read directly as binary32 it gives the float back *)
+Definition mid_spelling : list N := s2l "7.038531e-26".
+Lemma f32_midpoint_example :
+  sf_bits (dbl mid_spelling) = 0x3ab5c87fb0000000 /\
+  f32_of_f64 (sf_bits (dbl mid_spelling)) = 0x15ae43fe /\
+  de_f32 mid_spelling = 0x15ae43fd /\
+  de_f32 (0x2D%N :: mid_spelling) = 0x95ae43fd /\
+  fmt_f32_ref 0x15ae43fd = mid_spelling /\
+  from_value_ref [] 2 TyF32 (VNum mid_spelling) = Ok (SdF32 0x15ae43fd).
+Proof. repeat split; vm_compute; reflexivity. Qed.
 
 (* ---- the reference instances satisfy the float hypotheses on a sample (non-vacuity) ---- *)
 Definition sample64 : list Z :=
@@ -367,14 +358,14 @@ Definition sample64 : list Z :=
    0xC1178186851EB852; 0x3EB0C6F7A0B5ED8D; 0x433FFFFFFFFFFFFF; 0x4340000000000000; 0xFFEFFFFFFFFFFFFF].
 Definition sample32 : list Z :=
   [0; 0x80000000; 0x3F800000; 0x3DCCCCCD; 0x40A00000; 0x4CEB79A3; 0x4B800000; 0x7F7FFFFF; 0x00000001;
-   0x00800000; 0xC8BC0C34; 0x5F000000; 0x33D6BF95; 0xFF7FFFFF; 0x15AE43FC; 0x15AE43FE].
+   0x00800000; 0xC8BC0C34; 0x5F000000; 0x33D6BF95; 0xFF7FFFFF; 0x15AE43FC; 0x15AE43FD; 0x95AE43FD; 0x15AE43FE].
 
 Lemma reference_instances_sample :
-  forallb (fun b => f64_wf b && f64_finite b && (de_f64 (num_event lossy_ref (fmt_f64_ref b)) =? f64_norm b)) sample64 = true /\
-  forallb (fun b => f32_wf b && f32_finite b && negb (f32_dr b) && (de_f32 (num_event lossy_ref (fmt_f32_ref b)) =? f32_norm b)) sample32 = true.
+  forallb (fun b => f64_wf b && f64_finite b && (de_f64 (num_event (fmt_f64_ref b)) =? f64_norm b)) sample64 = true /\
+  forallb (fun b => f32_wf b && f32_finite b && (de_f32 (fmt_f32_ref b) =? f32_norm b)) sample32 = true.
 Proof. split; vm_compute; reflexivity. Qed.
 
 Print Assumptions roundtrip_RT.
 Print Assumptions k1_refuted.
-Print Assumptions k3_refuted.
+Print Assumptions f32_midpoint_example.
 Print Assumptions reference_instances_sample.
